@@ -97,7 +97,8 @@ def decode(
 
     try:
         claims: Claims = json.loads(payload, cls=decoder_cls)
-    except (TypeError, ValueError):
+    except (TypeError, ValueError, RecursionError):
+        # RecursionError: claims nested deeper than the JSON decoder can follow
         raise InvalidPayloadError()
 
     if not isinstance(claims, dict):
